@@ -131,6 +131,69 @@ theorem cache_coherency_eq_dense (b sbf : Bool) (w xi xj : List ℝ) {Fs : ℝ} 
   exact (coherencySpec_scale (cW_pos hW hFs step xi.length (l + t))
     (sum_nonneg fun _ _ => Complex.normSq_nonneg _) (sum_nonneg fun _ _ => Complex.normSq_nonneg _) _).symm
 
+/-! ### gains per channel (scale invariance of the cached path, norm constant included) -/
+
+/-- two positive gains: the cross term scales by `a·b`, the auto terms by `a²`, `b²` — the coherency is unchanged -/
+theorem coherencySpec_scale_two {a b p q : ℝ} (ha : 0 < a) (hb : 0 < b) (hp : 0 ≤ p) (hq : 0 ≤ q) (z : ℂ) :
+    coherencySpec (((a * b : ℝ) : ℂ) * z) ((a ^ 2 * p : ℝ) : ℂ) ((b ^ 2 * q : ℝ) : ℂ) = coherencySpec z (p : ℂ) (q : ℂ) := by
+  rw [coherencySpec_real _ (mul_nonneg (sq_nonneg a) hp) (mul_nonneg (sq_nonneg b) hq), coherencySpec_real _ hp hq]
+  have : Real.sqrt (a ^ 2 * p * (b ^ 2 * q)) = (a * b) * Real.sqrt (p * q) := by
+    rw [show a ^ 2 * p * (b ^ 2 * q) = (a * b) ^ 2 * (p * q) by ring, Real.sqrt_mul (sq_nonneg _),
+      Real.sqrt_sq (mul_pos ha hb).le]
+  rw [this]; push_cast
+  have hd' : ((a : ℂ) * (b : ℂ)) ≠ 0 := by exact_mod_cast (mul_pos ha hb).ne'
+  rw [mul_div_mul_left _ _ hd']
+
+/-- **`cache_to_coherency` is invariant under a positive gain per channel AND under the choice of the norm constant**:
+channel i recorded with gain `a`, channel j with gain `b`, cached with ANY positive `norm_val` — the value is the one of the
+unscaled recording cached with any other positive `norm_val'` (so also: with the constant the code uses, with `1`, i.e. with the
+divisions left out).  An identity over ℝ/ℂ: where binary64 overflows (`Pxx·Pyy` beyond 2^1024) is outside this statement and is
+decided per run by the correspondence and the dense oracle on data scaled by powers of two (harness `scale-*` scenarios). -/
+theorem cache_coherency_scale_invariant (bf : Bool) (w xi xj : List ℝ) {a b nv nv' : ℝ} (ha : 0 < a) (hb : 0 < b)
+    (hnv : 0 < nv) (hnv' : 0 < nv') (N step l t : ℕ) (hlen : xj.length = xi.length) :
+    cacheCoherency bf (w.map (↑)) (nv : ℂ) N step ((xi.map (a * ·)).map (↑)) ((xj.map (b * ·)).map (↑)) l t
+      = cacheCoherency bf (w.map (↑)) (nv' : ℂ) N step (xi.map (↑)) (xj.map (↑)) l t := by
+  rw [cacheCoherency_eq bf w (xi.map (a * ·)) (xj.map (b * ·)) hnv N step l t (by simp [hlen]),
+    cacheCoherency_eq bf w xi xj hnv' N step l t hlen]
+  simp only [List.length_map, F_scale]
+  set L := nSeg xi.length N step
+  have h1 : ∑ s ∈ range L, (a : ℂ) * F w xi N step (l + t) s * conj ((b : ℂ) * F w xj N step (l + t) s)
+      = ((a * b : ℝ) : ℂ) * ∑ s ∈ range L, F w xi N step (l + t) s * conj (F w xj N step (l + t) s) := by
+    rw [mul_sum]
+    refine sum_congr rfl fun s _ => ?_
+    rw [map_mul, Complex.conj_ofReal]; push_cast; ring
+  have h2 : ∀ (c : ℝ) (x : List ℝ), ∑ s ∈ range L, Complex.normSq ((c : ℂ) * F w x N step (l + t) s)
+      = c ^ 2 * ∑ s ∈ range L, Complex.normSq (F w x N step (l + t) s) := by
+    intro c x
+    rw [mul_sum]
+    refine sum_congr rfl fun s _ => ?_
+    rw [Complex.normSq_mul, Complex.normSq_ofReal]; ring
+  rw [h1, h2 a xi, h2 b xj]
+  exact coherencySpec_scale_two ha hb (sum_nonneg fun _ _ => Complex.normSq_nonneg _)
+    (sum_nonneg fun _ _ => Complex.normSq_nonneg _) _
+
+/-- … in particular with the constant `cache_fft` stores (`normVal`, either `scale_by_freq`) on both sides, and against the
+dense `coherency()` of the UNSCALED recording -/
+theorem cache_coherency_scaled_eq_dense_unscaled (bf sbf : Bool) (w xi xj : List ℝ) {a b Fs : ℝ} (ha : 0 < a) (hb : 0 < b)
+    (hFs : 0 < Fs) (N step l t : ℕ) (hW : 0 < W w N) (hlen : xj.length = xi.length) :
+    cacheCoherency bf (w.map (↑)) (normVal (w.map (↑)) (Fs : ℂ) N sbf) N step
+        ((xi.map (a * ·)).map (↑)) ((xj.map (b * ·)).map (↑)) l t
+      = coherencySpec
+          (welchBin (w.map (↑)) (Fs : ℂ) N step (xi.map (↑)) (xj.map (↑)) (l + t))
+          (welchBin (w.map (↑)) (Fs : ℂ) N step (xi.map (↑)) (xi.map (↑)) (l + t))
+          (welchBin (w.map (↑)) (Fs : ℂ) N step (xj.map (↑)) (xj.map (↑)) (l + t)) := by
+  rw [← cache_coherency_eq_dense bf sbf w xi xj hFs N step l t hW hlen, normVal_eq]
+  exact cache_coherency_scale_invariant bf w xi xj ha hb (nvR_pos hW hFs sbf) (nvR_pos hW hFs sbf) N step l t hlen
+
+/-- the norm constant alone: leaving the `/= norm_val` divisions out (constant 1) is the same number over ℝ/ℂ — the change
+of seeded change C09-15 is invisible to every exact statement and shows only where `Pxx·Pyy` leaves the binary64 range -/
+theorem cache_coherency_norm_constant_irrelevant (bf sbf : Bool) (w xi xj : List ℝ) {Fs : ℝ} (hFs : 0 < Fs)
+    (N step l t : ℕ) (hW : 0 < W w N) (hlen : xj.length = xi.length) :
+    cacheCoherency bf (w.map (↑)) (normVal (w.map (↑)) (Fs : ℂ) N sbf) N step (xi.map (↑)) (xj.map (↑)) l t
+      = cacheCoherency bf (w.map (↑)) ((1 : ℝ) : ℂ) N step (xi.map (↑)) (xj.map (↑)) l t := by
+  rw [normVal_eq, cacheCoherency_eq bf w xi xj (nvR_pos hW hFs sbf) N step l t hlen,
+    cacheCoherency_eq bf w xi xj one_pos N step l t hlen]
+
 /-- the memory / speed setting does not change any cached quantity -/
 theorem memory_setting_irrelevant (w : List ℂ) (nv : ℂ) (N step : ℕ) (xi xj : List ℂ) (l t : ℕ) :
     cacheCoherency true w nv N step xi xj l t = cacheCoherency false w nv N step xi xj l t
@@ -172,6 +235,14 @@ theorem cache_psd_eq_dense (b : Bool) (w x : List ℝ) {Fs : ℝ} (hFs : 0 < Fs)
   have hWc : ((W w N : ℝ) : ℂ) ≠ 0 := by exact_mod_cast hW.ne'
   push_cast
   field_simp
+
+/-- a gain `a` on the recording multiplies the cached PSD by `a²` (exactly so in binary64 too for powers of two, while nothing
+overflows): `cache_to_psd` of the scaled channel = `a²` × the dense PSD of the unscaled channel -/
+theorem cache_psd_scaled_eq_gain_sq_dense (b : Bool) (w x : List ℝ) (a : ℝ) {Fs : ℝ} (hFs : 0 < Fs) (N step l t : ℕ) (hW : 0 < W w N) :
+    cachePsd b (w.map (↑)) (normVal (w.map (↑)) (Fs : ℂ) N true) N step ((x.map (a * ·)).map (↑)) l t
+      = ((a ^ 2 : ℝ) : ℂ) * welchBin (w.map (↑)) (Fs : ℂ) N step (x.map (↑)) (x.map (↑)) (l + t) := by
+  rw [cache_psd_eq_dense b w (x.map (a * ·)) hFs N step l t hW, welchBin_scale_both, welchBin_self]
+  push_cast; ring
 
 /-- … and with scale_by_freq=False the cached PSD is Fs × the dense density -/
 theorem cache_psd_eq_dense_unscaled (b : Bool) (w x : List ℝ) {Fs : ℝ} (hFs : 0 < Fs) (N step l t : ℕ) (hW : 0 < W w N) :
